@@ -11,6 +11,7 @@ package server
 
 import (
 	"fmt"
+	"os"
 	"strings"
 	"testing"
 
@@ -24,8 +25,65 @@ var c04mix = []weighted{
 	{"pub", 40}, {"sleep", 16}, {"crash", 4}, {"crashfs", 3}, {"restart", 7}, {"cut", 8}, {"heal", 6}, {"stall", 3}, {"stalll", 2}, {"lagrepl", 3}, {"metalag", 4},
 }
 
+// c04Deposed: the leader is stalled for longer than its followers wait, right behind a burst of publishes -
+// with messages it has stored and handed to a follower but not yet seen reported back. Its successor is
+// elected meanwhile; it continues with what queued up.
+func c04Deposed(r *simrt.Rand, p *hx.Program) {
+	a := func() []int64 {
+		return []int64{int64(r.Intn(2)), int64(r.Intn(12)), int64(r.Intn(90)), 1 + int64(r.Intn(2))}
+	}
+	add := func(k string) { p.Ops = append(p.Ops, hx.Op{K: k, A: a()}) }
+	sleep := func(i int) { p.Ops = append(p.Ops, hx.Op{K: "sleep", A: []int64{int64(i)}}) }
+	p.Ops = nil
+	add("pub")
+	sleep(2)
+	for i, rounds := 0, 1+r.Intn(2); i < rounds; i++ {
+		if r.Pct(60) {
+			add("stallf")
+		}
+		if r.Pct(40) {
+			add("metalag")
+		}
+		for k := 1 + r.Intn(3); k > 0; k-- {
+			add("pub")
+		}
+		if r.Pct(70) {
+			// (armed before the publishes: the stall begins when the leader answers a fetch with them)
+			k := len(p.Ops) - 1
+			for k > 0 && p.Ops[k].K == "pub" {
+				k--
+			}
+			p.Ops = append(p.Ops[:k+1], append([]hx.Op{{K: "stalllr", A: []int64{int64(r.Intn(12)), int64(r.Intn(3))}}}, p.Ops[k+1:]...)...)
+			sleep(1)
+		} else {
+			p.Ops = append(p.Ops, hx.Op{K: "stalll", A: []int64{int64(8 + r.Intn(4)), int64(r.Intn(12))}})
+		}
+		sleep(3)
+		sleep(3 + r.Intn(2))
+		for k := r.Intn(3); k > 0; k-- {
+			add("pub")
+		}
+		sleep(2 + r.Intn(2))
+	}
+	add("pub")
+}
+
 func genC04(r *simrt.Rand, tier string, idx int) *hx.Program {
 	p := clusterGen(r, tier, c04mix)
+	if os.Getenv("VERIF_C04_FAMILY") == "deposed" || r.Pct(5) {
+		// (the environment variable is a development aid: a search for replays of the recorded finding
+		// "acked by a deposed leader"; replay files carry their program and do not depend on it)
+		p.P["nodes"], p.P["rf"], p.P["minisr"] = 3, 3, 2
+		if r.Pct(50) {
+			p.P["rf"] = 2 // one follower: its report alone commits
+		}
+		p.P["drop"], p.P["delay"] = 0, 0
+		p.P["lag_ms"] = []int64{2500, 5000}[r.Intn(2)]
+		p.P["leader_timeout_ms"] = []int64{1500, 3000}[r.Intn(2)]
+		p.P["occ"] = 0
+		c04Deposed(r, p)
+		return p
+	}
 	if r.Pct(25) {
 		p.P["occ"] = 1
 	}
